@@ -69,7 +69,7 @@ def run(ctx):
         meta.append((e, ev, cs))
     # with --split-by: an expression that looks at the enclosing record has the same value in a first and in a later
     # --select, in --filter, --sort-by and --group-by
-    scases = []; smeta = []
+    scases = []; smeta = []; mmeta = []
     SPL = ['^.k', '(size ^.arr)', '^.a', '(concat (default ^.k "n") "-")', '.']
     for i in range(n // 4):
         e = rnd.choice(SPL)
@@ -77,7 +77,11 @@ def run(ctx):
         two = mkcase('Z%d' % i, lib.new_cfg(split='.arr', select=['.=o', '(size .)=p', e + '=v']), data)
         srt = mkcase('W%d' % i, lib.new_cfg(split='.arr', select=['.=o', e + '=v'], sort=['(? true 1 %s)' % e]), data)
         grp = mkcase('X%d' % i, lib.new_cfg(split='.arr', select=[e + '=v'], group='(stringify %s)' % e), data)
-        scases += [one, two, srt, grp]; smeta.append((e, one, two, srt, grp))
+        # the same expression behind a macro (--set @mm=e ... @mm, and (@ "mm")): the macro body sees the record, its parents and the rows selected so far
+        mac = mkcase('U%d' % i, lib.new_cfg(split='.arr', set=['@mm=' + e], select=[rnd.choice(['@mm=v', '(@ "mm")=v', '(? true @mm 0)=v'])]), data)
+        mac2 = mkcase('UU%d' % i, lib.new_cfg(split='.arr', set=['@mm=(push [] %s /o/)' % e], select=['.=o', '@mm=v']), data)
+        ref2 = mkcase('UR%d' % i, lib.new_cfg(split='.arr', select=['.=o', '(push [] %s /o/)=v' % e]), data)
+        scases += [one, two, srt, grp, mac, mac2, ref2]; smeta.append((e, one, two, srt, grp)); mmeta.append((e, one, mac, mac2, ref2))
     cases += scases
     # regex functions under different cache sizes
     rcases = []; rmeta = []
@@ -140,6 +144,15 @@ def run(ctx):
             x, y = impl[cs[plain]['id']], impl[cs[var]['id']]
             if (x['result'], x['stdout']) != (y['result'], y['stdout']):
                 V(var, 'the spelling with aliases and comma/space separators (%s) means the same in %s as in --select' % (ev, where), (y['result'] + ' ' + y['stdout'].decode('utf8', 'replace'))[:300], (x['result'] + ' ' + x['stdout'].decode('utf8', 'replace'))[:300])
+    for e, one, mac, mac2, ref2 in mmeta:
+        for x, y in ((one, mac), (ref2, mac2)):
+            a, b = impl[x['id']], impl[y['id']]; checked += 1
+            va = [json.loads(r).get('v', '<nothing>') for r in rows(a['stdout'])] if a['result'] == 'ok' else a['result']
+            vb = [json.loads(r).get('v', '<nothing>') for r in rows(b['stdout'])] if b['result'] == 'ok' else b['result']
+            if va != vb:
+                d = y['inputs'][0]['data']
+                violations.append({'property': 'C13', 'relation': 'an expression means the same behind a macro as written in place (input, parents ^ and selected rows /name/ included)', 'expression': e,
+                                   'args': lib.cfg_args(y['cfg']), 'stdin_hex': d.hex(), 'observed': json.dumps(vb)[:300], 'expected': json.dumps(va)[:300]})
     for e, one, two, srt, grp in smeta:
         a = impl[one['id']]
         if a['result'] != 'ok': continue
